@@ -16,6 +16,9 @@
 //!     cq <real_s> <real_ns> <mono_s> <mono_ns>    `clockbound_now()` on the long-lived C context
 //!     qn <N> <4 ints> | cqn <N> <4 ints>          the same call N times in a row (every-N-th-call behaviour): the last
 //!                                answer, then `rep same` iff all N answers (and clock-read logs) were identical
+//!     qw <4 ints> <u16> <7 record ints> | cqw …   the same call, and at the call's FIRST clock read the daemon publishes: the
+//!                                generation word becomes the given (even) value and the record the given one.  A record published
+//!                                after the clock was read must not be applied to that reading, so the answer is the one of `q`
 //!   answer: one token group per op, joined by " ; ":
 //!     w | p | o ok | o <error> | q <clock ids read, in order> : <result> | q closed      (same with co / cq)
 use crate::rng::Rng;
@@ -39,6 +42,18 @@ fn client_err_text(e: &ClockBoundError) -> String {
     };
     let d = if e.detail.is_empty() { "-".to_string() } else { e.detail.replace(' ', "_") };
     format!("err {} {} {}", k, e.errno.0, d)
+}
+
+/// the daemon publishes: record bytes, then the generation word
+fn publish_raw(path: &str, img: &[u8]) {
+    let fl = std::fs::OpenOptions::new().write(true).open(path).expect("publish: open");
+    fl.write_all_at(&img[2..], 16).expect("publish: record");
+    fl.write_all_at(&img[..2], 14).expect("publish: gen");
+}
+fn pub_image(f: &[i64]) -> Vec<u8> {
+    let mut img = (f[4] as u16).to_ne_bytes().to_vec();
+    img.extend_from_slice(&crate::header::record_bytes(&[f[5], f[6], f[7], f[8], f[9], f[10], 0, f[11]]));
+    img
 }
 
 fn poke_u16(path: &str, off: u64, v: u16) {
@@ -90,9 +105,18 @@ pub fn exec(line: &str) -> String {
                 c_open = a == "ok";
                 out.push(format!("co {}", a));
             }
-            "q" | "qn" => {
+            "q" | "qn" | "qw" => {
                 let reps = if t[0] == "qn" { parse_ints(&t[1..2])[0].max(1) } else { 1 };
                 let f = parse_ints(if t[0] == "qn" { &t[2..] } else { &t[1..] });
+                if t[0] == "qw" {
+                    let img = pub_image(&f);
+                    if client.is_some() {
+                        let p3 = path.clone();
+                        vclock::on_next_read(Box::new(move || publish_raw(&p3, &img)));
+                    } else {
+                        publish_raw(&path, &img);
+                    }
+                }
                 let mut answers: Vec<String> = Vec::new();
                 for _ in 0..reps {
                 match client.as_mut() {
@@ -106,6 +130,10 @@ pub fn exec(line: &str) -> String {
                         vclock::enable();
                         let r = guarded(AssertUnwindSafe(|| c.now()));
                         vclock::disable();
+                        if vclock::cancel_on_next_read() {
+                            // the call read no clock at all: publish now, so that the session goes on from the same state
+                            publish_raw(&path, &pub_image(&f));
+                        }
                         let log: Vec<String> = vclock::take_log().iter().map(|x| x.to_string()).collect();
                         let ans = match r {
                             Ok(Ok(n)) => format!("ok {} {} {} {} {}", n.earliest.tv_sec(), n.earliest.tv_nsec(), n.latest.tv_sec(), n.latest.tv_nsec(), status_code(n.clock_status)),
@@ -120,6 +148,19 @@ pub fn exec(line: &str) -> String {
                 let same = answers.iter().all(|a| *a == last);
                 out.push(last);
                 if t[0] == "qn" { out.push(if same { "rep same".into() } else { format!("rep diff {}", answers.iter().filter(|a| **a != answers[answers.len() - 1]).count()) }); }
+            }
+            "cqw" => {
+                let f = parse_ints(&t[1..]);
+                let img = pub_image(&f);
+                if !c_open {
+                    publish_raw(&path, &img);
+                    out.push("cq closed".into());
+                } else {
+                    let hex: String = img.iter().map(|b| format!("{:02x}", b)).collect();
+                    let a = crate::header::c_request(&format!("snoww {} {} {} {} {} {}", f[0], f[1], f[2], f[3], path, hex));
+                    if a.starts_with("crash") { c_open = false; }
+                    out.push(format!("cq {}", a));
+                }
             }
             "cq" | "cqn" => {
                 let reps = if t[0] == "cqn" { parse_ints(&t[1..2])[0].max(1) } else { 1 };
@@ -228,6 +269,13 @@ pub fn gen_case(rng: &mut Rng) -> String {
                 let n = rng.pick(&[2i64, 17, 1023, 1024, 1025, 2100]);
                 for q in tmp { let (k, rest) = q.split_once(' ').unwrap(); ops.push(format!("{}n {} {}", k, n, rest)); }
             }
+            8 if rng.chance(1, 2) => { // the daemon publishes while the client is inside its call (at the call's first clock read)
+                let mut tmp = Vec::new(); gen_query(rng, &rec, &mut mono_now, &mut tmp);
+                let (ws, r) = gen_write(rng, &mut mono_now);
+                let g = rng.range(1, 32767) * 2;
+                for q in tmp { let (k, rest) = q.split_once(' ').unwrap(); ops.push(format!("{}w {} {} {}", k, rest, g, ws.strip_prefix("w ").unwrap())); }
+                rec = Some(r); gen_clean = true;
+            }
             _ => gen_query(rng, &rec, &mut mono_now, &mut ops),
         }
     }
@@ -264,6 +312,10 @@ pub fn grid() -> Vec<String> {
     // a daemon restart while chronyd is away: the restarted daemon's first publications are the "nothing measured
     // yet" record; long-lived clients must take it (Unknown at once, and still Unknown later)
     v.push(format!("session w 100 0 1100 0 10000 50000 1 ; o ; co ; {} ; w 0 0 1000 0 0 50000 0 ; {} ; {} ; w 0 0 1000 0 0 50000 0 ; {} ; w 108 0 1108 0 20000 50000 1 ; {}", q(100, 5), q(101, 0), q(106, 300_000_000), q(107, 0), q(108, 5)));
+    // the daemon publishes a much tighter record while a client is inside now(), after the client's clock was read (the system clock
+    // was just stepped: the old reading is only covered by the OLD record's bound): the answer must come from the old record
+    v.push(format!("session w 100 0 1100 0 12000000 50000 1 ; o ; co ; {} ; qw 1700000000 5 100 500 40 101 0 1101 0 50000 50000 1 ; cqw 1700000000 5 100 500 42 101 0 1101 0 50000 50000 1 ; {}", q(100, 5), q(101, 5)));
+    v.push(format!("session w 100 0 1100 0 12000000 50000 1 ; o ; co ; qw 1700000000 5 100 500 40 101 0 1101 0 50000 50000 1 ; cqw 1700000000 5 100 500 42 101 0 1101 0 50000 50000 2 ; {} ; w 102 0 1102 0 7 1000 1 ; {}", q(101, 5), q(102, 5)));
     // no publication yet: open must fail (generation 0)
     v.push(format!("session o ; co ; {} ; w 100 0 1100 0 10000 50000 1 ; o ; co ; {}", q(100, 5), q(100, 6)));
     v
